@@ -285,6 +285,29 @@ def r19_7(ck: Check) -> None:
                    "peers loaded from disk start disconnected, never attempted, with no failures")
 
 
+def r19_8(ck: Check) -> None:
+    """what a peer tells us (its own listening port, other peers' addresses) only ever ADDS an address to the book: an entry that is
+    already waiting for reconnection keeps its attempt time and failure count, otherwise announcements would reset the back-off"""
+    n = 0
+    for fn in (CRP + ".handle_hello_message_received", CRP + ".handle_peers_message_received"):
+        s = ck.summ(fn, 0)
+        sp = Spec(s, ())
+        dmap = sp.term("self.local_peer.network_manager.disconnected_peers")
+        cmap = sp.term("self.local_peer.network_manager.connected_peers")
+        st = [e for e in s.events if e.kind == "store" and e.term[0] == "s" and e.term[1] == dmap]
+        for e in st:
+            n += 1
+            key = e.term[2]
+            cs = {x for c in e.pc for x in conjuncts(c.term)}
+            construct = "%s: a peer-supplied address is recorded only when it is in neither map" % short(fn)
+            if ("cmp", "notin", key, dmap) in cs and ("cmp", "notin", key, cmap) in cs:
+                ck.ok("R19.8", construct, "", e.loc)
+            else:
+                ck.violated("R19.8", construct, "the store is reachable for an address already waiting for reconnection (conditions: %s): its "
+                            "last attempt time and failure count are overwritten, so it is dialled again at once" % sorted(show(x)[:60] for x in cs), e.loc)
+    ck.expect_count("R19.8", "peer-supplied address stores", n, 2)
+
+
 def r19_5(ck: Check) -> None:
     q = "skepticoin.networking.disk_interface.DiskInterface.write_peers"
     atomic_replace(ck, "R19.5", q, "PEERS_JSON_FILE", "the peer file is replaced atomically")
@@ -318,7 +341,7 @@ def r19_5(ck: Check) -> None:
     else:
         ck.violated("R19.5", construct, "dumped: %s" % detail, s.fi.loc)
     final_path_writers(ck, "R19.5", "peers.json", {
-        q + ":os.remove": "removal of a file already found unreadable, before the replacement (listed exception)"})
+        q + ":os.remove": "removal of a file already found unreadable, before the replacement (listed exception)"}, replacer=q)
 
 
 def check(ck: Check) -> None:
@@ -334,6 +357,7 @@ def check(ck: Check) -> None:
     ck.run("R19.3", "back-off and give-up", lambda: r19_3(ck))
     ck.run("R19.4", "self-connection", lambda: r19_4(ck))
     ck.run("R19.5", "peers file", lambda: r19_5(ck))
+    ck.run("R19.8", "announcements never overwrite a waiting entry", lambda: r19_8(ck))
     ck.run("R19.6", "announced addresses are sanitised", lambda: r19_6(ck))
     from .common import rule_ctor_identity
     ck.run("R19.7", "peer records store what they are given", lambda: r19_7(ck))
